@@ -11,6 +11,7 @@ tier = "quick"
 if "--tier" in sys.argv:
     tier = sys.argv[sys.argv.index("--tier") + 1]; ids = [i for i in ids if i != tier]
 d = os.path.join("/verif/seeded", name)
+os.makedirs("/tmp/wt", exist_ok=True)
 wt = tempfile.mkdtemp(prefix="seed-", dir="/tmp/wt"); os.rmdir(wt)
 subprocess.run(["git", "-C", "/repo", "worktree", "add", "--detach", wt, "HEAD", "-q"], check=True)
 try:
